@@ -311,6 +311,31 @@ func checkRecoverDiscipline(r *Run, prog *Program, pfx string) {
 			}
 		}
 		r.Check(pfx+".recover", "recover-sets-results", prog.pos(recoverFn.Pos()), setsVal && setsErr && callsMethod(recoverFn, "addErr"), "the recovering closure must record the panic with addErr, set val = nil and err = p.errs.err()")
+		// … in that order: the list is turned into the error after the panic has been put on it (taken before, it may
+		// still be empty, and (nil, nil) reaches the caller's type assertion)
+		if errM := prog.Method(prog.GrammarSSA, "errList", "err", true); errM != nil {
+			psR := NewPathSim(prog)
+			okOrder, whyOrder := true, ""
+			for _, sm := range psR.Run(recoverFn) {
+				lastAdd, lastErr := -1, -1
+				for i, ev := range sm.Events() {
+					if ev.Instr == nil || ev.Callee == nil {
+						continue
+					}
+					if ev.Callee.Name() == "addErr" || ev.Callee.Name() == "addErrAt" {
+						lastAdd = i
+					}
+					if ev.Callee == errM || (ev.Callee.Name() == errM.Name() && ev.Callee.Signature.Recv() != nil) {
+						lastErr = i
+					}
+				}
+				if lastAdd >= 0 && lastErr < lastAdd {
+					okOrder = false
+					whyOrder = "on a path of the recovering function the error list is read (errs.err()) before the recovered panic is recorded [path " + strings.Join(sm.St.trail, " ") + "]"
+				}
+			}
+			r.Check(pfx+".recover", "recover-records-then-reads", prog.pos(recoverFn.Pos()), okOrder, whyOrder)
+		}
 	}
 	// errList.err() is nil iff the list is empty
 	if ef := prog.Method(prog.GrammarSSA, "errList", "err", true); ef != nil {
